@@ -228,6 +228,50 @@ func runC10(t *rapid.T, prop string) {
 					simkit.Probe("tamper_still_valid_but_true")
 				}
 			}
+			// the same proof presented for other keys: a claimed key replaced by a key of the map or by a neighbour of
+			// the node the proof ends at (same leading bits, differing further down)
+			if len(qs) > 0 {
+				mkeys := make([]string, 0, len(model))
+				for mk := range model {
+					mkeys = append(mkeys, mk)
+				}
+				sort.Strings(mkeys)
+				for r := 0; r < 3; r++ {
+					qs2 := make([][]byte, len(qs))
+					for i := range qs {
+						qs2[i] = append([]byte(nil), qs[i]...)
+					}
+					i := simkit.Int(t, "relabel", 0, len(qs2)-1)
+					what := ""
+					if len(mkeys) > 0 && simkit.Bool(t, "relabelfrommap") {
+						qs2[i] = []byte(mkeys[simkit.Int(t, "relabelkey", 0, len(mkeys)-1)])
+						what = "claimed key replaced by a key of the map"
+					} else {
+						base := qs2[i]
+						if i < len(dec.Queries) && len(dec.Queries[i].Key) == len(base) && simkit.Bool(t, "relabelnear") {
+							base = append([]byte(nil), dec.Queries[i].Key...)
+						}
+						bit := simkit.Int(t, "relabelbit", 0, len(base)*8-1)
+						base[bit/8] ^= 0x80 >> uint(bit%8)
+						qs2[i] = base
+						what = fmt.Sprintf("claimed key replaced by a key differing in bit %d from the proof's node", bit)
+					}
+					if bytes.Equal(qs2[i], qs[i]) {
+						continue
+					}
+					okT, panicked := safeVerify(qs2, dec, root, keyLen)
+					if panicked != nil {
+						failC09("verify-panic", "smt.Verify panicked on a relabelled claim (%s): %v", what, panicked)
+					}
+					simkit.Fault("proof_presented_for_other_keys")
+					if okT {
+						if msg := claimsAgree(qs2, dec, model); msg != "" {
+							fail("proof", "sound-relabel", "a valid proof for %x still verifies when presented for %x (%s) and then claims: %s", qs, qs2, what, msg)
+						}
+						simkit.Probe("relabel_still_valid_but_true")
+					}
+				}
+			}
 			nontrivial = true
 		case op == 8: // reopen from stored nodes at the latest root
 			tr = smt.NewTrie(root, keyLen)
